@@ -10,8 +10,8 @@ int nondet_int();
 unsigned nondet_unsigned();
 void* nondet_ptr();
 // st_in[5]: status words; onmain: bit x = activeChain_.contains(block x); op 0 invalidateSubtree(b), 1 revalidateSubtree(b), 2 both in turn
-// st_out[5]; aux = {setState target or -1, updateTips calls, tips_ membership of blocks 0..4 (all members on entry)}
-void w_subtree(const uint32_t* st_in, int op, int b, uint32_t reason, int sdb, unsigned onmain, uint32_t* st_out, int32_t* aux) {
+// st_out[5]; aux = {setState target or -1, updateTips calls, tips_ membership of blocks 0..4}; tips: bit x = block x is in tips_ on entry
+void w_subtree(const uint32_t* st_in, int op, int b, uint32_t reason, int sdb, unsigned onmain, unsigned tips, uint32_t* st_out, int32_t* aux) {
   const int cpar[NB] = {-1, 0, P2, P3, P4};
   static BlockIndex blk[NB];
   for (int i = 0; i < NB; i++) { blk[i].pnext.n_ = 0; }
@@ -21,13 +21,17 @@ void w_subtree(const uint32_t* st_in, int op, int b, uint32_t reason, int sdb, u
     if (cpar[i] >= 0) { PNextSet& s = blk[cpar[i]].pnext; s.d_[s.n_++] = &blk[i]; }
   }
   BaseBlockTree t;
-  for (int i = 0; i < NB; i++) { t.activeChain_.answer_[i] = ((onmain >> i) & 1u) != 0; t.tips_.in_[i] = true; }
-  t.onBlockValidityChanged.n_ = 0; t.setState_to_ = -1; t.tryAddTip_n_ = 0; t.updateTips_n_ = 0;
-  if (op == 0 || op == 2) t.invalidateSubtree(blk[b], (enum BlockValidityStatus)reason, sdb != 0);
-  if (op == 1 || op == 2) t.revalidateSubtree(blk[b], (enum BlockValidityStatus)reason, sdb != 0);
+  for (int i = 0; i < NB; i++) { t.activeChain_.answer_[i] = ((onmain >> i) & 1u) != 0; t.tips_.in_[i] = ((tips >> i) & 1u) != 0; }
+  t.onBlockValidityChanged.n_ = 0; t.setState_to_ = -1; t.updateTips_n_ = 0;
+  // (case split on b so that each call starts from a concrete block: the recursion of forEachNodePreorder then follows the concrete tree)
+  for (int k = 1; k < NB; k++) {
+    if (k != b) continue;
+    if (op == 0 || op == 2) t.invalidateSubtree(blk[k], (enum BlockValidityStatus)reason, sdb != 0);
+    if (op == 1 || op == 2) t.revalidateSubtree(blk[k], (enum BlockValidityStatus)reason, sdb != 0);
+  }
   for (int i = 0; i < NB; i++) { st_out[i] = blk[i].status; aux[2 + i] = t.tips_.in_[i] ? 1 : 0; }
   aux[0] = t.setState_to_;
   aux[1] = (int32_t)t.updateTips_n_;
 }
-void h_subtree() { w_subtree((const uint32_t*)nondet_ptr(), nondet_int(), nondet_int(), nondet_unsigned(), nondet_int(), nondet_unsigned(), (uint32_t*)nondet_ptr(), (int32_t*)nondet_ptr()); REACH; }
+void h_subtree() { w_subtree((const uint32_t*)nondet_ptr(), nondet_int(), nondet_int(), nondet_unsigned(), nondet_int(), nondet_unsigned(), nondet_unsigned(), (uint32_t*)nondet_ptr(), (int32_t*)nondet_ptr()); REACH; }
 }
